@@ -29,7 +29,7 @@ NAME = "map"
 DRIVER_SRCS = ["map_driver.cpp"]
 MODEL_FAMILY = "map"
 MODE = "diff"
-BUDGET = {"quick": 400, "thorough": 3000}
+BUDGET = {"quick": 400, "thorough": 30000}
 
 BODIES = [0, 1, 2, 3, 4]
 
@@ -172,12 +172,12 @@ def gen(rng, tier, prop):
 
 def enumerate_cases(prop):
     """Exhaustive small space (thorough tier): timer bodies, 2 keys, 3 consecutive cycles, every combination of
-    {nothing, set, erase} per key and cycle, delays 1 and 2: all interleavings of wake-ups with other keys' ticks,
+    {nothing, set, erase} per key and cycle, delays 1..3, untagged and tagged: all interleavings of wake-ups with other keys' ticks,
     removals with pending timers and re-adds within the smallest window."""
     import itertools
-    for d in (1, 2):
+    for d, tagged in ((1, 0), (2, 0), (3, 0), (1, 1), (2, 1)):
         for combo in itertools.product(range(3), repeat=6):
-            case = [[1, 1, 8], [2, 3, d, 0, 1, 0, 0, 0]]
+            case = [[1, 1, 9], [2, 3, d, tagged, 1, 0, 0, 0]]
             n = 0
             for i, c in enumerate(combo):
                 t, k = 1 + i // 2, 5 + i % 2
